@@ -39,6 +39,13 @@ fn drive<T: OutputTarget>(target: &mut T, ops: &[Value], fixed_cap: Option<usize
                 }
                 Err(_) => false,
             },
+            // a reservation no address space can hold: the largest size there is, or the smallest one for which
+            // position + size no longer fits a machine word
+            "rh" => {
+                let written = op["len"].as_u64().unwrap_or(0) as usize;
+                let count = if k == 0 || written == 0 { usize::MAX } else { usize::MAX - written + 1 };
+                target.reserve_space(count).is_ok()
+            }
             "wr" => {
                 let r = op["r"].as_u64().unwrap_or(0) as usize;
                 match resv.get_mut(r - 1) {
@@ -249,7 +256,9 @@ pub fn record(histories: u64, max_len: u64) {
             let mut st = SliceOutputTarget::from(window);
             for step in 1..=len {
                 let choice = rng.below(10);
-                let (op, k, r) = if choice < 2 {
+                let (op, k, r) = if rng.chance(1, 25) {
+                    ("rh", rng.below(2) as usize, 0usize)
+                } else if choice < 2 {
                     ("wb", 1usize, 0usize)
                 } else if choice < 5 {
                     ("w", pick_k(&mut rng), 0)
@@ -258,10 +267,12 @@ pub fn record(histories: u64, max_len: u64) {
                 } else {
                     ("wr", if rng.chance(1, 4) { pick_k(&mut rng) } else { rng.below(6) as usize }, 1 + rng.below(nres as u64) as usize)
                 };
-                let payload: Vec<u8> = (1..=k).map(|j| byte(step, j)).collect();
+                let payload: Vec<u8> = if op == "rh" { vec![] } else { (1..=k).map(|j| byte(step, j)).collect() };
+                let huge = |written: usize| if k == 0 || written == 0 { usize::MAX } else { usize::MAX - written + 1 };
                 let ev;
                 if slice_kind {
                     let ok = match op {
+                        "rh" => st.reserve_space(huge(cap - st.remaining())).is_ok(),
                         "wb" => st.write_byte(byte(step, 1)).is_ok(),
                         "w" => st.write_bytes_exact(&payload).is_ok(),
                         "r" => st.reserve_space(k).map(|x| resv.push(x)).is_ok(),
@@ -270,8 +281,10 @@ pub fn record(histories: u64, max_len: u64) {
                     ev = json!({"ev": "op", "op": op, "k": k, "r": r, "ok": ok, "len": -1, "rem": st.remaining(), "probes": []});
                 } else {
                     let ok = {
+                        let vlen = v.len();
                         let mut vt = VecOutputTarget::from(&mut v);
                         match op {
+                            "rh" => vt.reserve_space(huge(vlen)).is_ok(),
                             "wb" => vt.write_byte(byte(step, 1)).is_ok(),
                             "w" => vt.write_bytes_exact(&payload).is_ok(),
                             "r" => vt.reserve_space(k).map(|x| resv.push(x)).is_ok(),
